@@ -214,23 +214,13 @@ Section Serde.
     | _ => SErr SData
     end.
 
-  (* A tuple visitor pulls exactly n elements. With ListAccess an improper
-     tail is only noticed when the walk reaches it, so elements beyond the
-     arity are never looked at. *)
-  Fixpoint list_take (n : nat) (a d : value) : sres (list value) :=
-    match n with
-    | O => SOk []
-    | S k =>
-        match d with
-        | Cons a' d' => sbind (list_take k a' d') (fun r => SOk (a :: r))
-        | Null => SOk [a]
-        | _ => SErr SData           (* ListAccess checks the cdr before yielding the element *)
-        end
-    end.
+  (* A tuple visitor pulls exactly n elements. ListAccess::new checks that the
+     list is proper before the visitor starts, so an improper list is rejected
+     whatever its length; elements beyond the arity are not looked at. *)
   Definition tuple_access (n : nat) (v : value) : sres (list value) :=
     match v with
     | Vector l => SOk (firstn n l)
-    | Cons a d => list_take n a d
+    | Cons a d => sbind (list_elems a d) (fun l => SOk (firstn n l))
     | _ => SErr SData
     end.
 
